@@ -217,10 +217,15 @@ class RSync:
             and not self._sourcedir.startswith("\\\\?\\")
         ):
             sourcedir = "\\\\?\\" + self._sourcedir
-        try:
-            relpath = os.path.relpath(linkpoint, sourcedir)
-        except ValueError:
-            relpath = None
+        relpath = None
+        if os.path.isabs(linkpoint):
+            # only absolute links can point "into" the source tree in a way
+            # that has to be rebased; relpath() of a relative link would
+            # depend on the current working directory
+            try:
+                relpath = os.path.relpath(linkpoint, sourcedir)
+            except ValueError:
+                relpath = None
         if (
             relpath is not None
             and relpath not in (os.curdir, os.pardir)
